@@ -1,0 +1,306 @@
+//go:build verif
+
+// Contracts for package fpgo, part 4: effects (MonadIO C11, Handler C12, Publisher C10) over the ghost event trace.
+// Events: tr_kind 1 = synchronous call of a function value (tr_fn, tr_arg = first argument, tr_res = first result),
+// 3 = Post of a function value (tr_fn) to a Handler (tr_obj), 4 = go statement, 5 = channel send, 6 = close.
+package fpgo
+
+// ===================================================================================================
+// C12 (used by C10/C11): posting to an open handler is exactly one send of exactly that function on the handler's channel;
+// posting to a closed handler does nothing.
+//@ func (HandlerDef).Post
+//@   prop C12
+//@   opt callbacks=effectful
+//@   opt effects=trace
+//@   requires handlerSelf != nil
+//@   ensures closed: old(handlerSelf.isClosed) ==> tr_len == old(tr_len)
+//@   ensures open: !old(handlerSelf.isClosed) ==> tr_len == old(tr_len)+1 && tr_kind[old(tr_len)] == 5 && tr_obj[old(tr_len)] == handlerSelf.ch && tr_fn[old(tr_len)] == fn
+
+// ===================================================================================================
+// C11 - MonadIO is lazy and runs every effect once per evaluation, in composition order.
+
+//@ define MIO_WF(p) = p != nil && p.effect != nil
+
+// constructors run nothing (the trace is unchanged) and record what they were given
+//@ func MonadIOJustGenerics
+//@   prop C11
+//@   opt callbacks=effectful
+//@   opt effects=trace
+//@   ensures lazy: tr_len == old(tr_len)
+//@   ensures made: r0 != nil && fresh(r0) && r0.obOn == nil && r0.subOn == nil && r0.effect != nil
+//@ func MonadIOJustGenerics lit 0
+//@   prop C11
+//@   opt callbacks=effectful
+//@   opt effects=trace
+//@   ensures value: r0 == in && tr_len == old(tr_len)
+
+//@ func MonadIONewGenerics
+//@   prop C11
+//@   opt callbacks=effectful
+//@   opt effects=trace
+//@   ensures lazy: tr_len == old(tr_len)
+//@   ensures made: r0 != nil && fresh(r0) && r0.obOn == nil && r0.subOn == nil && r0.effect == effect
+
+//@ func (MonadIODef).New
+//@   prop C11
+//@   opt callbacks=effectful
+//@   opt effects=trace
+//@   ensures lazy: tr_len == old(tr_len)
+//@   ensures made: r0 != nil && fresh(r0) && r0.obOn == nil && r0.subOn == nil && r0.effect == effect
+
+//@ func (MonadIODef).FlatMap
+//@   prop C11
+//@   opt callbacks=effectful
+//@   opt effects=trace
+//@   requires monadIOSelf != nil
+//@   ensures lazy: tr_len == old(tr_len)
+//@   ensures made: r0 != nil && fresh(r0) && r0.obOn == nil && r0.subOn == nil && r0.effect != nil
+// each evaluation of the composed effect: the receiver's effect once, then fn once on its value, then the resulting
+// MonadIO's effect once; the value is the last one's
+//@ func (MonadIODef).FlatMap lit 0
+//@   prop C11
+//@   opt callbacks=effectful
+//@   opt effects=trace
+//@   opt callback-result-inv=MIO_WF
+//@   requires monadIOSelf != nil && monadIOSelf.effect != nil && fn != nil
+//@   ensures three: tr_len == old(tr_len)+3
+//@   ensures first: tr_kind[old(tr_len)] == 1 && tr_fn[old(tr_len)] == monadIOSelf.effect
+//@   ensures second: tr_kind[old(tr_len)+1] == 1 && tr_fn[old(tr_len)+1] == fn && tr_arg[old(tr_len)+1] == tr_res[old(tr_len)]
+//@   ensures third: tr_kind[old(tr_len)+2] == 1 && tr_fn[old(tr_len)+2] == asptr(tr_res[old(tr_len)+1], MonadIODef).effect
+//@   ensures value: r0 == tr_res[old(tr_len)+2]
+
+//@ func (MonadIODef).SubscribeOn
+//@   prop C11
+//@   opt callbacks=effectful
+//@   opt effects=trace
+//@   modifies monadIOSelf
+//@   requires monadIOSelf != nil
+//@   ensures lazy: tr_len == old(tr_len)
+//@   ensures set: r0 != nil && r0.subOn == h && r0.obOn == old(monadIOSelf.obOn) && r0.effect == old(monadIOSelf.effect)
+
+//@ func (MonadIODef).ObserveOn
+//@   prop C11
+//@   opt callbacks=effectful
+//@   opt effects=trace
+//@   modifies monadIOSelf
+//@   requires monadIOSelf != nil
+//@   ensures lazy: tr_len == old(tr_len)
+//@   ensures set: r0 != nil && r0.obOn == h && r0.subOn == old(monadIOSelf.subOn) && r0.effect == old(monadIOSelf.effect)
+
+//@ func (MonadIODef).Eval
+//@   prop C11
+//@   opt callbacks=effectful
+//@   opt effects=trace
+//@   requires monadIOSelf != nil && monadIOSelf.effect != nil
+//@   ensures once: tr_len == old(tr_len)+1 && tr_kind[old(tr_len)] == 1 && tr_fn[old(tr_len)] == monadIOSelf.effect && r0 == tr_res[old(tr_len)]
+
+// doSubscribe: nothing without OnNext; inline: effect then OnNext with its value; with an observe handler: exactly one Post of
+// the observing closure (lit 1) to that handler; that closure (verified on its own) runs the effect once and then delivers
+// inline or Posts the delivering closure (lit 0) to the subscribe handler
+//@ func (MonadIODef).doSubscribe
+//@   prop C11
+//@   opt callbacks=effectful
+//@   opt effects=trace
+//@   opt lit-calls=inline
+//@   requires monadIOSelf != nil && monadIOSelf.effect != nil && s != nil
+//@   requires open-handlers: (obOn != nil ==> !obOn.isClosed) && (subOn != nil ==> !subOn.isClosed)
+//@   ensures same-subscription: r0 == s
+//@   ensures nothing: s.OnNext == nil ==> tr_len == old(tr_len)
+//@   ensures inline: s.OnNext != nil && obOn == nil && subOn == nil ==> tr_len == old(tr_len)+2 && tr_kind[old(tr_len)] == 1 && tr_fn[old(tr_len)] == monadIOSelf.effect && tr_kind[old(tr_len)+1] == 1 && tr_fn[old(tr_len)+1] == s.OnNext && tr_arg[old(tr_len)+1] == tr_res[old(tr_len)]
+//@   ensures inline-then-post: s.OnNext != nil && obOn == nil && subOn != nil ==> tr_len == old(tr_len)+2 && tr_kind[old(tr_len)] == 1 && tr_fn[old(tr_len)] == monadIOSelf.effect && tr_kind[old(tr_len)+1] == 5 && tr_obj[old(tr_len)+1] == subOn.ch
+//@   ensures posted: s.OnNext != nil && obOn != nil ==> tr_len == old(tr_len)+1 && tr_kind[old(tr_len)] == 5 && tr_obj[old(tr_len)] == obOn.ch
+//@ func (MonadIODef).doSubscribe lit 0
+//@   prop C11
+//@   opt callbacks=effectful
+//@   opt effects=trace
+//@   requires s != nil && s.OnNext != nil
+//@   ensures deliver: tr_len == old(tr_len)+1 && tr_kind[old(tr_len)] == 1 && tr_fn[old(tr_len)] == s.OnNext && tr_arg[old(tr_len)] == result
+//@ func (MonadIODef).doSubscribe lit 1
+//@   prop C11
+//@   opt callbacks=effectful
+//@   opt effects=trace
+//@   requires monadIOSelf != nil && monadIOSelf.effect != nil && doSub != nil && (subOn != nil ==> !subOn.isClosed)
+//@   ensures effect-first: tr_len == old(tr_len)+2 && tr_kind[old(tr_len)] == 1 && tr_fn[old(tr_len)] == monadIOSelf.effect && result == tr_res[old(tr_len)]
+//@   ensures then-post: subOn != nil ==> tr_kind[old(tr_len)+1] == 5 && tr_obj[old(tr_len)+1] == subOn.ch && tr_fn[old(tr_len)+1] == doSub
+//@   ensures then-inline: subOn == nil ==> tr_kind[old(tr_len)+1] == 1 && tr_fn[old(tr_len)+1] == doSub
+
+//@ func (MonadIODef).Subscribe
+//@   prop C11
+//@   opt callbacks=effectful
+//@   opt effects=trace
+//@   requires monadIOSelf != nil && monadIOSelf.effect != nil
+//@   requires open-handlers: (monadIOSelf.obOn != nil ==> !monadIOSelf.obOn.isClosed) && (monadIOSelf.subOn != nil ==> !monadIOSelf.subOn.isClosed)
+//@   ensures nothing: s.OnNext == nil ==> tr_len == old(tr_len)
+//@   ensures inline: s.OnNext != nil && monadIOSelf.obOn == nil && monadIOSelf.subOn == nil ==> tr_len == old(tr_len)+2 && tr_fn[old(tr_len)] == monadIOSelf.effect && tr_fn[old(tr_len)+1] == s.OnNext && tr_arg[old(tr_len)+1] == tr_res[old(tr_len)]
+//@   ensures posted: s.OnNext != nil && monadIOSelf.obOn != nil ==> tr_len == old(tr_len)+1 && tr_kind[old(tr_len)] == 5 && tr_obj[old(tr_len)] == monadIOSelf.obOn.ch
+
+// ===================================================================================================
+// C12 - Handler / Actor mailboxes: the per-goroutine facts (one consumer loop with a synchronous call per message,
+// one send per Post/Send on an open object, Spawn bookkeeping). Schedules are not explored; the step to "serial, exactly
+// once, per-sender order" uses the channel axioms (FIFO, each value received once) and is stated in DESIGN.md.
+
+//@ func (HandlerDef).NewByCh
+//@   prop C12
+//@   opt callbacks=effectful
+//@   opt effects=trace
+//@   ensures one-consumer: tr_len == old(tr_len)+1 && tr_kind[old(tr_len)] == 4
+//@   ensures made: r0 != nil && fresh(r0) && r0.ch == ioCh && !r0.isClosed
+
+// the consumer loop: after k received functions the trace has grown by exactly k synchronous calls, of those functions, in order
+//@ func (HandlerDef).run
+//@   prop C12
+//@   opt callbacks=effectful
+//@   opt effects=trace
+//@   opt recv-nonnil=true
+//@   requires handlerSelf != nil
+//@ func (HandlerDef).run loop 0
+//@   invariant serial: tr_len == old(tr_len) + _i && forall(k, 0, _i, tr_kind[old(tr_len)+k] == 1 && tr_fn[old(tr_len)+k] == _rx[k])
+
+//@ func (HandlerDef).Close
+//@   prop C12
+//@   opt callbacks=effectful
+//@   opt effects=trace
+//@   modifies handlerSelf
+//@   requires handlerSelf != nil && handlerSelf.ch != nil
+//@   ensures closed: handlerSelf.isClosed && tr_len == old(tr_len)+1 && tr_kind[old(tr_len)] == 6 && tr_obj[old(tr_len)] == handlerSelf.ch
+
+//@ func ActorNewByOptionsGenerics
+//@   prop C12
+//@   opt callbacks=effectful
+//@   opt effects=trace
+//@   ensures one-consumer: tr_len == old(tr_len)+1 && tr_kind[old(tr_len)] == 4
+//@   ensures made: r0 != nil && fresh(r0) && r0.ch == ioCh && r0.effect == effect && !r0.isClosed && r0.parent == nil && r0.children != nil && fresh(r0.children)
+
+// the actor's consumer loop: one synchronous call of the effect per message, with the actor itself as first argument
+//@ func (ActorDef).run
+//@   prop C12
+//@   opt callbacks=effectful
+//@   opt effects=trace
+//@   requires actorSelf != nil && actorSelf.effect != nil
+//@ func (ActorDef).run loop 0
+//@   invariant serial: tr_len == old(tr_len) + _i && forall(k, 0, _i, tr_kind[old(tr_len)+k] == 1 && tr_fn[old(tr_len)+k] == actorSelf.effect && tr_arg[old(tr_len)+k] == boxed(actorSelf))
+
+//@ func (ActorDef).Send
+//@   prop C12
+//@   opt callbacks=effectful
+//@   opt effects=trace
+//@   requires actorSelf != nil
+//@   ensures closed: old(actorSelf.isClosed) ==> tr_len == old(tr_len)
+//@   ensures open: !old(actorSelf.isClosed) ==> tr_len == old(tr_len)+1 && tr_kind[old(tr_len)] == 5 && tr_obj[old(tr_len)] == actorSelf.ch && tr_arg[old(tr_len)] == message
+
+//@ func (ActorDef).Close
+//@   prop C12
+//@   opt callbacks=effectful
+//@   opt effects=trace
+//@   modifies actorSelf
+//@   requires actorSelf != nil && actorSelf.ch != nil
+//@   ensures closed: actorSelf.isClosed && tr_len == old(tr_len)+1 && tr_kind[old(tr_len)] == 6 && tr_obj[old(tr_len)] == actorSelf.ch
+
+//@ func (ActorDef).IsClosed
+//@   prop C12
+//@   requires actorSelf != nil
+//@   ensures def: r0 == actorSelf.isClosed
+//@ func (ActorDef).GetParent
+//@   prop C12
+//@   requires actorSelf != nil
+//@   ensures def: r0 == actorSelf.parent
+//@ func (ActorDef).GetChild
+//@   prop C12
+//@   requires actorSelf != nil
+//@   ensures def: has(actorSelf.children, id) ==> r0 == actorSelf.children[id]
+
+// Spawn: a fresh, independent actor (own channel, own consumer); registered under an open parent, unregistered under a closed one
+//@ func (ActorDef).Spawn
+//@   prop C12
+//@   opt callbacks=effectful
+//@   opt effects=trace
+//@   modifies actorSelf, actorSelf.children
+//@   requires actorSelf != nil && actorSelf.children != nil
+//@   ensures child: r0 != nil && fresh(r0) && r0 != actorSelf && fresh(r0.ch) && r0.effect == effect && !r0.isClosed
+//@   ensures one-consumer: tr_len == old(tr_len)+1 && tr_kind[old(tr_len)] == 4
+//@   ensures registered: !old(actorSelf.isClosed) ==> r0.parent == actorSelf && has(actorSelf.children, r0.id) && actorSelf.children[r0.id] == r0
+//@   ensures not-registered: old(actorSelf.isClosed) ==> r0.parent == nil && unchangedmap(actorSelf.children)
+
+// ===================================================================================================
+// C10 - Publisher: each value delivered exactly once per live subscription, in order; (un)subscribing never disturbs a
+// delivery in progress.  view(p) = the sequence p.subscribers.
+// Key fact ("old cells"): Subscribe and Unsubscribe never write a cell below the old length of the old backing array,
+// so the snapshot a running Publish iterates is immutable - whether the change comes from a re-entrant callback or from
+// another goroutine (both act only through these locked methods).
+
+//@ define PUB_WF(p) = forall(k, 0, len(p.subscribers), p.subscribers[k] != nil)
+
+//@ func (PublisherDef).Subscribe
+//@   prop C10
+//@   opt lockguard=subscribers:subscribeM
+//@   modifies publisherSelf, publisherSelf.subscribers
+//@   requires publisherSelf != nil && PUB_WF(publisherSelf)
+//@   ensures appended: len(publisherSelf.subscribers) == old(len(publisherSelf.subscribers))+1 && publisherSelf.subscribers[old(len(publisherSelf.subscribers))] == r0 && forall(i, 0, old(len(publisherSelf.subscribers)), publisherSelf.subscribers[i] == old(publisherSelf.subscribers[i]))
+//@   ensures new-subscription: r0 != nil && fresh(r0) && r0.OnNext == sub.OnNext
+//@   ensures old-cells: forall(i, 0, old(len(publisherSelf.subscribers)), old(publisherSelf.subscribers)[i] == old(publisherSelf.subscribers[i]))
+//@   ensures wf: PUB_WF(publisherSelf)
+
+// Unsubscribe removes every occurrence of s and nothing else; what remains keeps its order (g: position in the old view)
+//@ func (PublisherDef).Unsubscribe
+//@   prop C10
+//@   opt lockguard=subscribers:subscribeM
+//@   modifies publisherSelf
+//@   requires publisherSelf != nil && PUB_WF(publisherSelf)
+//@   ensures gone: forall(j, 0, len(publisherSelf.subscribers), publisherSelf.subscribers[j] != s)
+//@   ensures shorter: len(publisherSelf.subscribers) <= old(len(publisherSelf.subscribers))
+//@   ensures old-cells: forall(i, 0, old(len(publisherSelf.subscribers)), old(publisherSelf.subscribers)[i] == old(publisherSelf.subscribers[i]))
+//@   ensures wf: PUB_WF(publisherSelf)
+//@ func (PublisherDef).Unsubscribe loop 0
+//@   invariant searching: !isAnyMatching && subscribers == old(publisherSelf.subscribers) && publisherSelf.subscribers == old(publisherSelf.subscribers) && forall(k, 0, _i, subscribers[k] != s)
+
+// Publish: the snapshot S taken under the lock is delivered to, one event per subscriber with an OnNext, in order:
+// cnt[k] = number of deliveries before subscriber k
+//@ func (PublisherDef).Publish
+//@   prop C10
+//@   opt callbacks=effectful
+//@   opt effects=trace
+//@   opt lit-calls=inline
+//@   opt callback-havoc=publisherSelf
+//@   opt lockguard=subscribers:subscribeM
+//@   ghost cnt (Array Int Int)
+//@   ghostinit cnt = store(cnt, 0, 0)
+//@   requires publisherSelf != nil && PUB_WF(publisherSelf) && (publisherSelf.subOn != nil ==> !publisherSelf.subOn.isClosed)
+//@   ensures counted: cnt[0] == 0 && forall(k, 0, old(len(publisherSelf.subscribers)), cnt[k+1] == cnt[k] + ite(old(publisherSelf.subscribers[k]).OnNext != nil, 1, 0)) && tr_len == old(tr_len) + cnt[old(len(publisherSelf.subscribers))]
+//@   ensures delivered: forall(k, 0, old(len(publisherSelf.subscribers)), old(publisherSelf.subscribers[k]).OnNext != nil ==> (tr_kind[old(tr_len)+cnt[k]] == 1 && tr_fn[old(tr_len)+cnt[k]] == old(publisherSelf.subscribers[k]).OnNext && tr_arg[old(tr_len)+cnt[k]] == result) || tr_kind[old(tr_len)+cnt[k]] == 5)
+//@ func (PublisherDef).Publish loop 0
+//@   ghostset cnt = store(cnt, _i+1, cnt[_i] + ite(subscribers[_i].OnNext != nil, 1, 0))
+//@   invariant snapshot: subscribers == old(publisherSelf.subscribers) && forall(k, 0, len(subscribers), subscribers[k] == old(publisherSelf.subscribers[k]) && subscribers[k] != nil && subscribers[k].OnNext == old(publisherSelf.subscribers[k].OnNext))
+//@   invariant counted: cnt[0] == 0 && 0 <= cnt[_i] && forall(k, 0, _i, cnt[k+1] == cnt[k] + ite(subscribers[k].OnNext != nil, 1, 0) && 0 <= cnt[k]) && tr_len == old(tr_len) + cnt[_i]
+//@   invariant mono: forall(k, 0, _i, cnt[k] + ite(subscribers[k].OnNext != nil, 1, 0) <= cnt[_i])
+//@   invariant delivered: forall(k, 0, _i, subscribers[k].OnNext != nil ==> (tr_kind[old(tr_len)+cnt[k]] == 1 && tr_fn[old(tr_len)+cnt[k]] == subscribers[k].OnNext && tr_arg[old(tr_len)+cnt[k]] == result) || tr_kind[old(tr_len)+cnt[k]] == 5)
+// the delivering closure (it may run later, on the handler): one call of this subscription's OnNext with the published value
+//@ func (PublisherDef).Publish lit 1
+//@   prop C10
+//@   opt callbacks=effectful
+//@   opt effects=trace
+//@   requires s != nil && s.OnNext != nil
+//@   ensures deliver: tr_len == old(tr_len)+1 && tr_kind[old(tr_len)] == 1 && tr_fn[old(tr_len)] == s.OnNext && tr_arg[old(tr_len)] == result
+
+//@ func (PublisherDef).SubscribeOn
+//@   prop C10
+//@   modifies publisherSelf
+//@   requires publisherSelf != nil
+//@   ensures set: r0 == publisherSelf && publisherSelf.subOn == h && publisherSelf.subscribers == old(publisherSelf.subscribers)
+
+//@ func PublisherNewGenerics
+//@   prop C10
+//@   ensures made: r0 != nil && fresh(r0) && len(r0.subscribers) == 0 && r0.subOn == nil && r0.origin == nil
+
+// Map: a fresh publisher whose origin is the receiver; the forwarding subscription calls fn once per value
+//@ func (PublisherDef).Map
+//@   prop C10
+//@   modifies publisherSelf, publisherSelf.subscribers
+//@   requires publisherSelf != nil && PUB_WF(publisherSelf)
+//@   ensures derived: r0 != nil && fresh(r0) && r0.origin == publisherSelf
+//@   ensures subscribed: len(publisherSelf.subscribers) == old(len(publisherSelf.subscribers))+1 && forall(i, 0, old(len(publisherSelf.subscribers)), publisherSelf.subscribers[i] == old(publisherSelf.subscribers[i]))
+//@ func (PublisherDef).Map lit 0
+//@   prop C10
+//@   opt callbacks=effectful
+//@   opt effects=trace
+//@   requires next != nil && fn != nil && PUB_WF(next) && (next.subOn != nil ==> !next.subOn.isClosed)
+//@   ensures mapped-first: tr_len >= old(tr_len)+1 && tr_kind[old(tr_len)] == 1 && tr_fn[old(tr_len)] == fn && tr_arg[old(tr_len)] == in
